@@ -215,6 +215,8 @@ func scenTerm(n string) string {
 		return "ScCacheRoute"
 	case "secret-duplex":
 		return "ScSecretDuplex"
+	case "mixed-policy-resume":
+		return "ScMixedResume"
 	}
 	return "ScStreamDuplex"
 }
@@ -239,7 +241,7 @@ func judge(c *core.Ctx, s scen, o outcome) {
 }
 
 func gen(c *core.Ctx) error {
-	c.Rule("harness/c17race is built with `go build -race` against the repository under test and run per (scenario, GOMAXPROCS, seed): cache-basic / cache-maint = 8 goroutines x N random operations (Store, Lookup*, MapCommand, Invalidate, Snapshot, Size, RenewLease, setters; maint adds InvalidateExpired and DebugDump) on 12 overlapping ids with injected yields, then concurrent invalidation and the quiescence post-conditions (an invalidated id is unreachable by Lookup, LookupNonExpired, LookupByCommand and Snapshot; Size = |Snapshot|); client-shared-config = rounds of simultaneous client.ConnectAndAuthenticateWithConfig calls (fresh, then resuming the shared session) sharing ONE SecurityConfig and ONE cache against one server.Server over TCP loopback, each verified by a reply over its encrypted stream; secman-shared-config = one SecurityManager used by many handshakes; percommand-shared-config = a server whose SecurityConfigForCommand returns one shared config object and 12 x 8 overlapping fresh handshakes for that command, all of which must succeed; session-ids = 16 goroutines x 20000 calls of security.GetNextSessionCounter (plus GenerateSessionID) at GOMAXPROCS 4/8/16: every value handed out exactly once, increasing per caller; the handshake scenarios also require pairwise distinct session ids and that the caller's shared SecurityConfig objects (client side, server side - listing the unimplemented PASSWORD method first - and per-command) are deeply unchanged afterwards; cache-atomicity = 4 owner goroutines replacing an expired entry by a fresh one / renewing and re-storing an entry just past its expiry, 2500 times each on their own ids, while 3 goroutines sweep continuously (InvalidateExpired, LookupNonExpired): the live entry must be found right afterwards and at quiescence (no lost update); cache-route = 4 owners x 3000 registrations (Store, then MapCommand) on their own ids while 2 goroutines invalidate those ids continuously, each followed by a Store of a different entry under the id: a lookup by the old command key must not return the later session; secret-duplex = writer and reader goroutine on both ends of AES streams exchanging ads whose private attribute arrives in the legacy SECRET_MARKER + put_secret form (the crypto-for-secret toggle on the receive path must not touch what the send path reads); fresh-key-duplex = 4 x 60 stream pairs keyed directly with SetSymmetricKey after a cleartext prologue (as a resumed session is), then writer and reader goroutines started together on both endpoints so that the first protected send and the first protected receive overlap; stream-duplex = one goroutine sending while another receives on each end of established AES streams. Oracle: race detector reports (classified by the frames involved) and post-conditions. non-trivial = a run that executed operations; distinct by (scenario, GOMAXPROCS, seed)")
+	c.Rule("harness/c17race is built with `go build -race` against the repository under test and run per (scenario, GOMAXPROCS, seed): cache-basic / cache-maint = 8 goroutines x N random operations (Store, Lookup*, MapCommand, Invalidate, Snapshot, Size, RenewLease, setters; maint adds InvalidateExpired and DebugDump) on 12 overlapping ids with injected yields, then concurrent invalidation and the quiescence post-conditions (an invalidated id is unreachable by Lookup, LookupNonExpired, LookupByCommand and Snapshot; Size = |Snapshot|); client-shared-config = rounds of simultaneous client.ConnectAndAuthenticateWithConfig calls (fresh, then resuming the shared session) sharing ONE SecurityConfig and ONE cache against one server.Server over TCP loopback, each verified by a reply over its encrypted stream; secman-shared-config = one SecurityManager used by many handshakes; percommand-shared-config = a server whose SecurityConfigForCommand returns one shared config object and 12 x 8 overlapping fresh handshakes for that command, all of which must succeed; session-ids = 16 goroutines x 20000 calls of security.GetNextSessionCounter (plus GenerateSessionID) at GOMAXPROCS 4/8/16: every value handed out exactly once, increasing per caller; the handshake scenarios also require pairwise distinct session ids and that the caller's shared SecurityConfig objects (client side, server side - listing the unimplemented PASSWORD method first - and per-command) are deeply unchanged afterwards; cache-atomicity = 4 owner goroutines replacing an expired entry by a fresh one / renewing and re-storing an entry just past its expiry, 2500 times each on their own ids, while 3 goroutines sweep continuously (InvalidateExpired, LookupNonExpired): the live entry must be found right afterwards and at quiescence (no lost update); cache-route = 4 owners x 3000 registrations (Store, then MapCommand) on their own ids while 2 goroutines invalidate those ids continuously, each followed by a Store of a different entry under the id: a lookup by the old command key must not return the later session; secret-duplex = writer and reader goroutine on both ends of AES streams exchanging ads whose private attribute arrives in the legacy SECRET_MARKER + put_secret form (the crypto-for-secret toggle on the receive path must not touch what the send path reads); fresh-key-duplex = 4 x 60 stream pairs keyed directly with SetSymmetricKey after a cleartext prologue (as a resumed session is), then writer and reader goroutines started together on both endpoints so that the first protected send and the first protected receive overlap; mixed-policy-resume = clients of DIFFERENT local policies sharing one cache and one cached (unauthenticated) session for the same peer/command: 4 rounds of 8 simultaneous connections over in-memory pipes, half with Authentication=OPTIONAL (resume), half with Authentication=REQUIRED (the peer accepts the resumption, checkResumedSession then refuses it locally), overlapping; every handshake that reported success must exchange a message over its stream and the key bytes of the cached entry (snapshot through the exported KeyInfo().Data) must be unchanged, at least one resumption and one refusal must occur; stream-duplex = one goroutine sending while another receives on each end of established AES streams. Oracle: race detector reports (classified by the frames involved) and post-conditions. non-trivial = a run that executed operations; distinct by (scenario, GOMAXPROCS, seed)")
 	c.Assume("the Go race detector's happens-before analysis (dynamic, schedule dependent) stands in for the memory model; absence of a report is not a proof")
 	c.Assume("stream send/receive independence holds after both handshake digests are finalised (SetSymmetricKey / FinalizeDigests), which the handshake does before returning")
 	bin, err := buildRace()
@@ -271,6 +273,7 @@ func gen(c *core.Ctx) error {
 				scen{"fresh-key-duplex", p, seed + 8, 4, 60},
 				scen{"cache-route", p, seed + 9, 4, 3000},
 				scen{"secret-duplex", p, seed + 10, 3, 120},
+				scen{"mixed-policy-resume", p, seed + 11, 8, 4},
 				scen{"stream-duplex", p, seed + 4, 3, 120})
 		}
 	}
